@@ -152,10 +152,32 @@ reg("C11", ["c11_pcrash.c"], level="fault_enumeration",
     assumptions=["a torn write leaves a prefix of its octets on the medium; writes are not reordered",
                  "zero-length medium accesses cannot fail visibly and are not counted as injected faults"])
 
+reg("C01", ["c01_typed.c"],
+    rule="units = 8 register types x {little, big endian} x {memory-, callback-backed area} x 13 constraint variants "
+         "(none, always-fail, callback, 3 x min, 3 x max, 4 x range incl. bounds at the type's extremes and a "
+         "single-value range; bounds seeded). Per unit: handles 3 (one past the end), 4, 5, 1000, 2^31, 2^32-2, "
+         "2^32-1 and a random one through both set variants and get; values of all seven other types; then values "
+         "of the register's type through register_set, register_get and register_set_unsafe: all 65536 for 16-bit "
+         "types, else every single bit and its complement, every octet lane x {00,01,7f,80,ff} on zero and ones "
+         "background, type extremes, both bounds +-2 neighbours, 18 float classes (zero, subnormal, normal, "
+         "infinite, quiet/signalling NaN with payloads), seeded random. After every call the complete storage of "
+         "the area (register under test between a u16 and an s32 neighbour) is compared with the model. A signature "
+         "is a configuration; evaluations counts values set.",
+    exhaustive={"quick": "all values of 16-bit registers in every configuration",
+                "thorough": "all values of 16-bit registers in every configuration"})
+
 SAN_NOTE = ("Trusted: gcc 12 ASan/UBSan runtime, the harness' reference model, the fork-per-unit runner. "
             "Assumes little-endian x86-64; decides only the executions listed in the evidence file.")
 
 MANIFEST_TEXT = {
+    "C01": dict(
+        technique="runtime monitoring: value enumeration per type/byte order/backing/constraint against an independent codec and constraint evaluator, whole-image comparison after every call, ASan/UBSan",
+        text="Each register type is exercised in every configuration with exhaustive (16-bit) or boundary+random "
+             "(wider, all float classes) values through the checked and unchecked set and get; acceptance, the "
+             "octets in table byte order, bit-identical read-back and 'storage unchanged on refusal' are decided by a "
+             "model that shares no code with ufw. Every handle value class including one-past-the-end is probed on "
+             "both set variants.",
+        note=SAN_NOTE),
     "C11": dict(
         technique="runtime monitoring + fault enumeration: recorded medium write logs replayed offline into every crash prefix/tear, and single read/write failures or short transfers injected at every access position; independent checksum oracle; ASan/UBSan",
         text="Every crash point of every explored store/reset (write-call prefixes and octet-granular tearing) is "
